@@ -89,6 +89,7 @@ var ghostSorts = map[string]Sort{
 	"@nwrites": SBV64, "@dyncalls": SBV64, "@rset": SBV64,
 	// last reflect setter applied to a value that was not allocated in this call: which setter (1 SetInt, 2 SetUint,
 	// 3 SetFloat, 4 SetBool, 5 SetString, 6 Set, 7 other), and its argument by sort
+	"@chunktag": SBV8, // tag of the string / binary chunk whose header was parsed last
 	"@lastsetk": SBV64, "@lastseti": SBV64, "@lastsetf": SF64, "@lastsetb": SBool, "@lastsets": SStr,
 	"@refs": SBV64, "@declared": SBV64, "@tr": SStrm, "@opens": SBV64, "@clashes": SBV64, "@lastwriter": SBV64, "@startcls": SBV64, "@nvals": SBV64, "@selfregs": SBV64, "@calls": SBV64, "@dyntrue": SBV64, "@nrec": SBV64, "@lastreader": SBV64, "@dstartcls": SBV64, "@dstartrefs": SBV64, "@dstarttyps": SBV64, "@startrefs": SBV64, "@defs": SBV64, "@depth": SBV64, "@alloc": SBV64, "@nread": SBV64,
 }
